@@ -120,6 +120,9 @@ def run(ctx, rep):
             rep.bad(rule, COMPILER + '::' + v['method'], '%s %s' % (ob, c), v['text'], 'src/compiler.rs', key='%s %s' % (v['oblig'], v['kc']))
 
     check_cfg(ctx, rep, {r: r for r in ('R11.1', 'R11.2', 'R11.3', 'R11.5')})
+    rep.rule('R11.11', '`anders als` chains test their conditions in the order written: the parser nests each further `als` inside the alternative of the one before (a one-statement block holding the if-expression that starts there)')
+    from rules import c07 as _c07
+    _c07.check_else_if(ctx, rep, 'R11.11')
     rep.rule('R11.9', 'the jump placeholder is only written, never read back: no code compares a value with it, so a jump whose real target equals the placeholder is an ordinary jump')
     _shared.check_placeholder_write_only(ctx, rep, 'R11.9')
 
